@@ -7,7 +7,7 @@ use crate::{guarded, Emit};
 use cel_interpreter::{ExecutionError, Program, Value};
 use std::sync::Arc;
 
-const VARS: &[&str] = &["a", "b", "c", "foo", "bar_1", "_x", "size", "x"];
+const VARS: &[&str] = &["a", "b", "c", "foo", "bar_1", "_x", "size", "x", "__result__", "_result", "result", "__iter__", "accu", "_", "__"];
 const FUNS: &[&str] = &["f", "g", "h", "size", "foo", "lookup"];
 
 struct G<'a> {
